@@ -171,6 +171,10 @@ var frags = []*Frag{
 	}},
 	// matrix rows and include rows holding objects with several properties: object assignability and merging
 	{Name: "matrix-object-rows", Jobs: []FragJob{{ID: "{P}mor", Body: "    strategy:\n      matrix:\n        cfg: [{a: 1, b: x, c: true}, {a: 2, b: y, c: false}]\n        include:\n          - cfg: {a: 3, b: z, c: true, d: extra}\n          - cfg: {a: s, b: 1}\n            other: {p: 1, q: 2}\n          - other: {p: x, q: y, r: z}\n    runs-on: ubuntu-latest\n    steps:\n      - run: echo ${{ matrix.cfg.a }} ${{ matrix.cfg.d }} ${{ matrix.cfg.nope }} ${{ matrix.other.p }} ${{ matrix.other.zzz }}\n"}}},
+	// a runs-on expression that does not parse, and one that resolves through the matrix to an unknown label
+	{Name: "runs-on-expr-syntax-error", Jobs: []FragJob{{ID: "{P}rse", Body: "    strategy:\n      matrix:\n        os: [ubuntu-latest]\n    runs-on: ${{ matrix. }}\n    steps:\n      - run: echo\n"}}},
+	{Name: "runs-on-matrix-unknown-label", Jobs: []FragJob{{ID: "{P}rmu", Body: "    strategy:\n      matrix:\n        os: [ubuntu-latest, my-own-box, windows-latest]\n    runs-on: ${{ matrix.os }}\n    steps:\n      - run: echo\n"}}},
+	{Name: "runs-on-matrix-conflict", Jobs: []FragJob{{ID: "{P}rmc", Body: "    strategy:\n      matrix:\n        os: [ubuntu-latest]\n    runs-on: [\"${{ matrix.os }}\", windows-latest, another-unknown]\n    steps:\n      - run: echo\n"}}},
 	{Name: "matrix-objfilter", Jobs: []FragJob{{ID: "{P}mof", Body: "    strategy:\n      matrix:\n        include:\n          - name: first\n            targets: [{os: linux, arch: x64}, {os: darwin, arch: arm64}]\n            nums: [1, 2]\n    runs-on: ubuntu-latest\n    steps:\n      - run: echo \"${{ join(matrix.targets.*.os, ',') }}\"\n      - run: echo \"${{ join(matrix.targets.*.arch, ',') }}\"\n      - run: echo \"${{ matrix.targets.*.nope }} ${{ matrix.nums.*.x }}\"\n      - run: echo \"${{ matrix.targets[0].os }} ${{ toJSON(matrix.targets) }}\"\n"}}},
 	{Name: "no-matrix-ref", Jobs: []FragJob{{ID: "{P}nomx", Body: "    runs-on: ubuntu-latest\n    steps:\n      - run: echo ${{ matrix.foo }}\n"}}},
 	{Name: "uses-job-with-matrix", Assets: []string{"wf-opt"}, Clean: true, Jobs: []FragJob{{ID: "{P}call", Body: "    strategy:\n      matrix:\n        foo: [1, 2]\n    uses: ./.github/workflows/reuse-opt.yml\n    with:\n      note: n${{ matrix.foo }}\n"}}},
